@@ -100,7 +100,8 @@ func init() {
 		rule("R5-completion-group", ruleCompletionGroup).
 		rule("R6-object-provenance", ruleObjProvenance("Promise", "Promise.patch")).
 		rule("R16-name-agreement", ruleNameAgreement).
-		rule("R6-cas", ruleCAS("ReadPromise", "CreatePromise", "CreatePromiseAndTask", "CompletePromise", "SearchPromises", "CreateCallback", "CreateSubscription"))
+		rule("R6-cas", ruleCAS("ReadPromise", "CreatePromise", "CreatePromiseAndTask", "CompletePromise", "SearchPromises", "CreateCallback", "CreateSubscription")).
+		rule("R16-converter-complete", ruleConverterCompleteness)
 
 	regProp("C02",
 		[]string{
@@ -188,7 +189,8 @@ func init() {
 		rule("R1R2-sql-spec", ruleSQLSpec(kindList("CreatePromiseAndTask", "CreatePromise", "CreateTask", "ReadEnqueueableTasks", "CompleteTasks", "UpdateTask"))).
 		rule("R9-command-provenance", ruleCmdProvenance("CreateTaskCommand", "CreatePromiseAndTaskCommand", "UpdateTaskCommand", "CompleteTasksCommand", "ReadEnqueueableTasksCommand", "ReadPromiseCommand")).
 		rule("R6-object-provenance", ruleObjProvenance("Task", "SenderSubmission")).
-		rule("R17-commands-submitted", ruleCommandsSubmitted)
+		rule("R17-commands-submitted", ruleCommandsSubmitted).
+		rule("R7-http-plugin-outcome", ruleHttpPluginOutcome)
 
 	regProp("C09",
 		[]string{
@@ -244,7 +246,8 @@ func init() {
 		rule("R12-cursor", ruleCursorVerified).
 		rule("R12-request-asserts", ruleRequestAsserts).
 		rule("R6-cas", ruleCAS("SearchPromises")).
-		rule("R6-response-shapes", ruleRespProvenance("SearchPromisesResponse", "SearchSchedulesResponse"))
+		rule("R6-response-shapes", ruleRespProvenance("SearchPromisesResponse", "SearchSchedulesResponse")).
+		rule("R9-cursor-carry", ruleCursorCarry)
 }
 
 func init() {
@@ -264,7 +267,9 @@ func init() {
 		rule("R10-http-reply-once", ruleHttpReplyOnce).
 		rule("R6-response-shapes", ruleRespProvenance(allRespTypes...)).
 		rule("R12-union-literals", ruleUnionLiterals).
-		rule("R7-decision-tables", ruleTables(tblReadSchedule, tblHeartbeatLocks, tblHeartbeatTasks, tblSearchSchedules, tblAcquire, tblRelease, tblDeleteSchedule))
+		rule("R7-decision-tables", ruleTables(tblReadSchedule, tblHeartbeatLocks, tblHeartbeatTasks, tblSearchSchedules, tblAcquire, tblRelease, tblDeleteSchedule)).
+		rule("R16-converter-complete", ruleConverterCompleteness).
+		rule("R16-zero-value-locals", ruleZeroValueLocals)
 }
 
 func init() {
@@ -326,7 +331,8 @@ func init() {
 		rule("R9-command-provenance", ruleCmdProvenance("ReadPromisesCommand", "ReadSchedulesCommand", "ReadTasksCommand", "ReadEnqueueableTasksCommand", "TimeoutLocksCommand", "UpdatePromiseCommand", "UpdateScheduleCommand", "UpdateTaskCommand")).
 		rule("R17-commands-submitted", ruleCommandsSubmitted).
 		rule("R17-lifecycle-calls", ruleLifecycleCalls).
-		rule("R12-await-non-nil", ruleAwaitNonNil)
+		rule("R12-await-non-nil", ruleAwaitNonNil).
+		rule("R10-worker-loops", ruleWorkerLoops)
 
 	regProp("C12",
 		[]string{
@@ -345,7 +351,10 @@ func init() {
 		rule("R10-kernel-queues", ruleKernelQueues).
 		rule("R17-lifecycle-calls", ruleLifecycleCalls).
 		rule("R10-cqe-well-formed", ruleCQEWellFormed).
-		rule("R10-dequeue-bound", ruleDequeueBound)
+		rule("R10-dequeue-bound", ruleDequeueBound).
+		rule("R10-worker-loops", ruleWorkerLoops).
+		rule("R10-request-wrapper", ruleRequestWrapper).
+		rule("R10-worker-entries", ruleWorkerEntriesCarryCallback)
 }
 
 func init() {
@@ -374,11 +383,13 @@ func init() {
 		rule("R12-union-literals", ruleUnionLiterals).
 		rule("R12-err-dominates-use", ruleErrDominatesUse).
 		rule("R12-records-index", ruleRecordsIndex).
+		rule("R12-nil-and-deref", ruleNilAndDeref).
 		rule("R13-front-end-siblings", ruleFrontEndSiblings).
 		rule("M-stmt-prepared", ruleStmtPrepared).
 		rule("R10-cqe-well-formed", ruleCQEWellFormed).
 		rule("R10-dequeue-bound", ruleDequeueBound).
-		rule("R12-await-non-nil", ruleAwaitNonNil)
+		rule("R12-await-non-nil", ruleAwaitNonNil).
+		rule("R10-request-wrapper", ruleRequestWrapper)
 }
 
 func init() {
@@ -412,7 +423,9 @@ func init() {
 		rule("R6-object-provenance", ruleObjProvenance("SenderSubmission", "Task", "Promise")).
 		rule("R12-decode-nil", ruleDecodeNil).
 		rule("R10-exactly-once", ruleExactlyOnce).
-		rule("R10-cqe-well-formed", ruleCQEWellFormed)
+		rule("R10-cqe-well-formed", ruleCQEWellFormed).
+		rule("R7-http-plugin-outcome", ruleHttpPluginOutcome).
+		rule("R7-sender-process", ruleTables(tblSenderProcess))
 }
 
 func init() {
@@ -431,5 +444,7 @@ func init() {
 		rule("R15-derived-ids", ruleDerivedIdsRaw).
 		rule("R1R2-sql-spec", ruleSQLSpec(allKinds)).
 		rule("R9-command-provenance", ruleCmdProvenance("CreatePromiseCommand", "UpdatePromiseCommand", "CreateScheduleCommand", "CreateCallbackCommand", "CreateTaskCommand")).
-		rule("R6-object-provenance", ruleObjProvenance(objAll...))
+		rule("R6-object-provenance", ruleObjProvenance(objAll...)).
+		rule("R16-converter-complete", ruleConverterCompleteness).
+		rule("R16-zero-value-locals", ruleZeroValueLocals)
 }
